@@ -31,7 +31,6 @@ impl World {
 /// Which values of every layout dimension are enumerated at one record position / file level.
 #[derive(Clone)]
 pub struct Profile {
-    pub name: &'static str,
     pub g: [Vec<u8>; NGDIMS],
     pub per: Vec<[Vec<u8>; NDIMS]>,
 }
@@ -51,7 +50,7 @@ impl Profile {
         for (d, (_, vals)) in GDIMS.iter().enumerate() {
             g[d] = all(vals.len());
         }
-        Profile { name: "single/full", g, per: vec![per] }
+        Profile { g, per: vec![per] }
     }
 
     /// Files of two records: everything that carries state from one entry to the next.
@@ -76,12 +75,12 @@ impl Profile {
         r2[D_CLASS] = vec![0, 1];
         r2[D_ORDER] = vec![0, 1];
         r2[D_SEP] = if thorough { vec![0, 2] } else { vec![0] };
-        r2[D_COMMENT] = vec![0, 1];
+        r2[D_COMMENT] = if thorough { vec![0, 1] } else { vec![0] };
         r2[D_PARENS] = vec![0, 2];
         r2[D_STRINGS] = vec![0];
         r2[D_RDNAMES] = vec![0, 1];
         let g = [vec![0, 1], if thorough { vec![0, 1] } else { vec![0] }, vec![0, 1, 2]];
-        Profile { name: "pair", g, per: vec![r1, r2] }
+        Profile { g, per: vec![r1, r2] }
     }
 
     /// Files of three records: owner / TTL / class / origin chains only.
@@ -102,7 +101,7 @@ impl Profile {
         r1[D_ORIGIN] = vec![0];
         r1[D_OWNER] = vec![0, 1, 2];
         let g = [vec![0], vec![0], vec![0, 1]];
-        Profile { name: "triple", g, per: vec![r1, r.clone(), r] }
+        Profile { g, per: vec![r1, r.clone(), r] }
     }
 
     pub fn describe(&self) -> Value {
@@ -126,7 +125,7 @@ impl Profile {
 pub enum Verdict {
     Illegal,
     Ok,
-    Unjudged(&'static str),
+    Unjudged,
     Viol { clause: String, what: String },
 }
 
@@ -167,6 +166,9 @@ pub fn judge_text(w: &World, entries: &[&Entry], text: &str, origin_changed: boo
     let (origin, map) = match res {
         Err(p) => return Verdict::Viol { clause: panic_key(&p), what: format!("parser panicked on a valid file: {}", p.msg) },
         Ok(Err(e)) => {
+            if !judged {
+                return Verdict::Unjudged;
+            }
             return Verdict::Viol { clause: "valid:rejected".into(), what: format!("valid file rejected: {e}") };
         }
         Ok(Ok(x)) => x,
@@ -185,7 +187,7 @@ pub fn judge_text(w: &World, entries: &[&Entry], text: &str, origin_changed: boo
         }
     }
     if !judged {
-        return Verdict::Unjudged("valid:unjudged:rrset-conflict");
+        return Verdict::Unjudged;
     }
     // expected set (duplicates collapse)
     let mut want: Vec<&Record> = vec![];
@@ -255,7 +257,9 @@ pub fn run_file(w: &World, entries: &[&Entry], g: &GlobalLayout, lays: &[RecLayo
 // ------------------------------------------------------------------------------------------
 // minimiser -> key
 
-fn feature_list(n: usize, g: &GlobalLayout, lays: &[RecLayout]) -> String {
+/// `for_key`: the number of lines a parenthesised group spans is a matter of degree, not of kind:
+/// keys name the dimension only.
+fn feature_list(n: usize, g: &GlobalLayout, lays: &[RecLayout], for_key: bool) -> String {
     let mut parts = vec![];
     for (d, (name, vals)) in GDIMS.iter().enumerate() {
         if g[d] != 0 {
@@ -265,10 +269,11 @@ fn feature_list(n: usize, g: &GlobalLayout, lays: &[RecLayout]) -> String {
     for (k, lay) in lays.iter().enumerate() {
         for (d, (name, vals)) in DIMS.iter().enumerate() {
             if lay[d] != 0 {
-                if n > 1 {
-                    parts.push(format!("r{}.{}={}", k + 1, name, vals[lay[d] as usize]));
+                let prefix = if n > 1 { format!("r{}.", k + 1) } else { String::new() };
+                if for_key && d == D_PARENS {
+                    parts.push(format!("{prefix}{name}"));
                 } else {
-                    parts.push(format!("{}={}", name, vals[lay[d] as usize]));
+                    parts.push(format!("{prefix}{}={}", name, vals[lay[d] as usize]));
                 }
             }
         }
@@ -276,24 +281,48 @@ fn feature_list(n: usize, g: &GlobalLayout, lays: &[RecLayout]) -> String {
     parts.join(",")
 }
 
-/// Reduce a violating case to a small witness with the same oracle clause and derive the key
-/// `<clause>:<types>:<non-default layout choices>`. Deterministic (fixed order).
-pub fn minimise<'e>(
-    w: &World,
-    entries: &[&'e Entry],
-    g: &GlobalLayout,
-    lays: &[RecLayout],
-    clause: &str,
-    l: &mut Local,
-) -> (String, Vec<&'e Entry>, GlobalLayout, Vec<RecLayout>) {
-    let _ = l;
+/// One non-default layout choice: slot 0 = file level, slot k+1 = record k of the ORIGINAL tuple.
+#[derive(Clone, Copy, Debug, PartialEq, Eq)]
+pub struct Pos {
+    slot: usize,
+    dim: usize,
+    val: u8,
+}
+
+fn family(c: &str) -> &str {
+    c.split('.').next().unwrap_or(c)
+}
+
+pub struct Minimal<'e> {
+    pub key: String,
+    pub entries: Vec<&'e Entry>,
+    pub g: GlobalLayout,
+    pub lays: Vec<RecLayout>,
+    /// sufficient sets of layout choices (as found, and with lowered values)
+    pub sets: Vec<Vec<Pos>>,
+}
+
+/// Reduce a violating case to a small witness of the same oracle clause family and derive the
+/// key `<clause>:<types>:<non-default layout choices>`. Deterministic (fixed order): first drop
+/// records, then find the first 1-, 2- or 3-subset of the non-default layout choices that still
+/// violates with everything else at its plainest value, then lower the values.
+pub fn minimise<'e>(w: &World, alpha: &'e [Entry], entries: &[&'e Entry], g: &GlobalLayout, lays: &[RecLayout], clause: &str) -> Minimal<'e> {
     let mut scratch = Local::default();
+    let fam = family(clause).to_string();
+    let mut last_clause = clause.to_string();
     let mut viol = |es: &[&Entry], g: &GlobalLayout, ls: &[RecLayout]| -> bool {
-        matches!(run_file(w, es, g, ls, &mut scratch).0, Verdict::Viol { clause: c, .. } if c == clause)
+        match run_file(w, es, g, ls, &mut scratch).0 {
+            Verdict::Viol { clause: c, .. } if family(&c) == fam => {
+                last_clause = c;
+                true
+            }
+            _ => false,
+        }
     };
     // (a) fewer records
     let mut es: Vec<&Entry> = entries.to_vec();
     let mut ls: Vec<RecLayout> = lays.to_vec();
+    let mut kept: Vec<usize> = (0..entries.len()).collect();
     let g0 = *g;
     'outer: loop {
         if es.len() > 1 {
@@ -305,19 +334,14 @@ pub fn minimise<'e>(
                 if viol(&e2, &g0, &l2) {
                     es = e2;
                     ls = l2;
+                    kept.remove(i);
                     continue 'outer;
                 }
             }
         }
         break;
     }
-    // (b) smallest set of non-default layout choices (1, 2, 3 choices; fixed order)
-    #[derive(Clone, Copy)]
-    struct Pos {
-        slot: usize, // 0 = file, k+1 = record k
-        dim: usize,
-        val: u8,
-    }
+    // (b) smallest set of non-default layout choices
     let mut nd: Vec<Pos> = vec![];
     for d in 0..NGDIMS {
         if g0[d] != 0 {
@@ -327,18 +351,20 @@ pub fn minimise<'e>(
     for (k, lay) in ls.iter().enumerate() {
         for d in 0..NDIMS {
             if lay[d] != 0 {
-                nd.push(Pos { slot: k + 1, dim: d, val: lay[d] });
+                nd.push(Pos { slot: kept[k] + 1, dim: d, val: lay[d] });
             }
         }
     }
+    let kept2 = kept.clone();
     let build = |set: &[Pos]| -> (GlobalLayout, Vec<RecLayout>) {
         let mut g = [0u8; NGDIMS];
-        let mut v = vec![[0u8; NDIMS]; ls.len()];
+        let mut v = vec![[0u8; NDIMS]; kept2.len()];
         for p in set {
             if p.slot == 0 {
                 g[p.dim] = p.val;
             } else {
-                v[p.slot - 1][p.dim] = p.val;
+                let k = kept2.iter().position(|x| *x + 1 == p.slot).expect("kept slot");
+                v[k][p.dim] = p.val;
             }
         }
         (g, v)
@@ -379,6 +405,7 @@ pub fn minimise<'e>(
             cur
         }
     };
+    let as_found = set.clone();
     // lower every remaining choice to its smallest violating value
     for i in 0..set.len() {
         for v in 1..set[i].val {
@@ -392,9 +419,30 @@ pub fn minimise<'e>(
         }
     }
     let (gm, lm) = build(&set);
+    // (d) plainer records: swap a record for the plain A record of the same owner/TTL/class
+    // when the violation does not depend on its RDATA (keeps type-independent defects on one key)
+    for i in 0..es.len() {
+        let cur = es[i];
+        if let Some(plain) = alpha.iter().find(|a| {
+            a.rec.rtype == "A" && a.tag.starts_with("A 192.0.2.1") && a.rec.owner == cur.rec.owner && a.rec.ttl == cur.rec.ttl && a.rec.class == cur.rec.class
+        }) {
+            if !std::ptr::eq(plain, cur) {
+                let mut e2 = es.clone();
+                e2[i] = plain;
+                if viol(&e2, &gm, &lm) {
+                    es = e2;
+                }
+            }
+        }
+    }
+    let _ = viol(&es, &gm, &lm); // the clause of the final witness
     let types: Vec<&str> = es.iter().map(|e| e.rec.rtype).collect();
-    let key = format!("{}:{}:{}", clause, types.join("+"), feature_list(es.len(), &gm, &lm));
-    (key, es, gm, lm)
+    let key = format!("{}:{}:{}", last_clause, types.join("+"), feature_list(es.len(), &gm, &lm, true));
+    let mut sets = vec![as_found];
+    if sets[0] != set {
+        sets.push(set);
+    }
+    Minimal { key, entries: es, g: gm, lays: lm, sets }
 }
 
 pub fn case_json(alpha: &str, idx: &[usize], entries: &[&Entry], g: &GlobalLayout, lays: &[RecLayout], text: Option<&str>) -> Value {
@@ -405,8 +453,8 @@ pub fn case_json(alpha: &str, idx: &[usize], entries: &[&Entry], g: &GlobalLayou
         "record_tags": entries.iter().map(|e| e.tag.clone()).collect::<Vec<_>>(),
         "file_layout": g.to_vec(),
         "record_layouts": lays.iter().map(|l| l.to_vec()).collect::<Vec<_>>(),
-        "layout": feature_list(entries.len().max(2), g, lays),
-        "text": text,
+        "layout": feature_list(entries.len().max(2), g, lays, false),
+        "text": text.map(|t| if t.len() > 1200 { format!("{}...[{} bytes]", &t[..1200], t.len()) } else { t.to_string() }),
     })
 }
 
@@ -418,6 +466,8 @@ pub struct Stats {
     pub legal: u64,
     pub ok: u64,
     pub unjudged: u64,
+    pub violating: u64,
+    pub minimised: u64,
     pub dimvals: [[u64; 4]; NDIMS],
     pub gvals: [[u64; 4]; NGDIMS],
 }
@@ -427,6 +477,8 @@ impl Stats {
         self.legal += o.legal;
         self.ok += o.ok;
         self.unjudged += o.unjudged;
+        self.violating += o.violating;
+        self.minimised += o.minimised;
         for d in 0..NDIMS {
             for v in 0..4 {
                 self.dimvals[d][v] += o.dimvals[d][v];
@@ -441,11 +493,26 @@ impl Stats {
 }
 
 pub struct Enum<'a> {
+    pub ctx: &'a vcore::Ctx,
     pub w: &'a World,
     pub alpha_name: &'static str,
     pub alpha: &'a [Entry],
     pub profile: &'a Profile,
     pub stats: &'a Mutex<Stats>,
+}
+
+/// State of the enumeration of one record tuple.
+struct Run<'a> {
+    idx: &'a [usize],
+    entries: Vec<&'a Entry>,
+    recs: Vec<&'a Rec>,
+    judged: bool,
+    st: Stats,
+    /// witnesses already minimised for this tuple: (clause family, sufficient layout choices, key).
+    /// A later violating file of the same family that contains all choices of a witness is
+    /// attributed to its key without being minimised again (the witness shows that these
+    /// choices alone make the file fail).
+    cache: Vec<(String, Vec<Pos>, String)>,
 }
 
 impl<'a> Enum<'a> {
@@ -454,34 +521,22 @@ impl<'a> Enum<'a> {
         let entries: Vec<&Entry> = idx.iter().map(|i| &self.alpha[*i]).collect();
         let recs: Vec<&Rec> = entries.iter().map(|e| &e.rec).collect();
         let judged = !tuple_unjudged(&entries);
-        let mut st = Stats::default();
+        let mut run = Run { idx, entries, recs, judged, st: Stats::default(), cache: vec![] };
         let prof = self.profile;
         for &eol in &prof.g[G_EOL] {
             for &fin in &prof.g[G_FINAL] {
                 for &top in &prof.g[G_TTLTOP] {
                     let g: GlobalLayout = [eol, fin, top];
-                    let p = Printer::new(&self.w.origin, &self.w.alts, eol == 1, ttl_top_value(&g, &recs));
+                    let p = Printer::new(&self.w.origin, &self.w.alts, eol == 1, ttl_top_value(&g, &run.recs));
                     let mut lays: Vec<RecLayout> = vec![];
-                    self.level(idx, &entries, &recs, judged, &g, &p, &mut lays, &mut st, l);
+                    self.level(&mut run, &g, &p, &mut lays, l);
                 }
             }
         }
-        self.stats.lock().unwrap().add(&st);
+        self.stats.lock().unwrap().add(&run.st);
     }
 
-    #[allow(clippy::too_many_arguments)]
-    fn level(
-        &self,
-        idx: &[usize],
-        entries: &[&Entry],
-        recs: &[&Rec],
-        judged: bool,
-        g: &GlobalLayout,
-        p: &Printer<'_>,
-        lays: &mut Vec<RecLayout>,
-        st: &mut Stats,
-        l: &mut Local,
-    ) {
+    fn level(&self, run: &mut Run<'_>, g: &GlobalLayout, p: &Printer<'_>, lays: &mut Vec<RecLayout>, l: &mut Local) {
         let k = lays.len();
         let dom = &self.profile.per[k];
         let radices: Vec<u64> = dom.iter().map(|d| d.len() as u64).collect();
@@ -493,25 +548,29 @@ impl<'a> Enum<'a> {
             for d in 0..NDIMS {
                 lay[d] = dom[d][digits[d] as usize];
             }
-            if !p.check_record(recs[k], &lay) {
+            if !p.check_record(run.recs[k], &lay) {
                 continue;
             }
             let mut p2 = p.clone();
-            p2.emit_record(recs[k], &lay);
+            p2.emit_record(run.recs[k], &lay);
             lays.push(lay);
-            if k + 1 < recs.len() {
-                self.level(idx, entries, recs, judged, g, &p2, lays, st, l);
+            if k + 1 < run.recs.len() {
+                self.level(run, g, &p2, lays, l);
             } else {
-                self.leaf(idx, entries, judged, g, &p2, lays, st, l);
+                self.leaf(run, g, &p2, lays, l);
             }
             lays.pop();
         }
     }
 
-    #[allow(clippy::too_many_arguments)]
-    fn leaf(&self, idx: &[usize], entries: &[&Entry], judged: bool, g: &GlobalLayout, p: &Printer<'_>, lays: &[RecLayout], st: &mut Stats, l: &mut Local) {
+    fn leaf(&self, run: &mut Run<'_>, g: &GlobalLayout, p: &Printer<'_>, lays: &[RecLayout], l: &mut Local) {
         let text = p.finish(g[G_FINAL] == 0);
+        if run.st.legal % 64 == 0 {
+            // re-arm the hang watchdog with a replayable description of the running case
+            self.ctx.watch(l.worker, || case_json(self.alpha_name, run.idx, &run.entries, g, lays, None).to_string());
+        }
         l.eval();
+        let st = &mut run.st;
         st.legal += 1;
         for (d, v) in g.iter().enumerate() {
             st.gvals[d][*v as usize] += 1;
@@ -522,34 +581,47 @@ impl<'a> Enum<'a> {
             }
         }
         if p.features != 0 {
-            l.nontrivial(fnv64(text.as_bytes()));
-        }
-        match judge_text(self.w, entries, &text, p.origin_changed, &p.origin, judged, l) {
-            Verdict::Ok => st.ok += 1,
-            Verdict::Unjudged(c) => {
-                st.unjudged += 1;
-                let _ = c;
+            // non-trivial rule: distinct layout vectors with an inheritance / relative name /
+            // continuation / escape (the vector, not the record it was applied to)
+            let mut h = Vec::with_capacity(4 + lays.len() * NDIMS);
+            h.extend_from_slice(g);
+            h.push(lays.len() as u8);
+            for lay in lays {
+                h.extend_from_slice(lay);
             }
+            l.nontrivial(fnv64(&h));
+        }
+        match judge_text(self.w, &run.entries, &text, p.origin_changed, &p.origin, run.judged, l) {
+            Verdict::Ok => st.ok += 1,
+            Verdict::Unjudged => st.unjudged += 1,
             Verdict::Illegal => unreachable!(),
             Verdict::Viol { clause, what } => {
+                st.violating += 1;
                 if clause.starts_with("panic:") {
                     // panics are keyed by their site, not by the layout
-                    l.violation(&clause, &what, || case_json(self.alpha_name, idx, entries, g, lays, Some(&text)));
+                    l.violation(&clause, &what, || case_json(self.alpha_name, run.idx, &run.entries, g, lays, Some(&text)));
                     return;
                 }
-                let (key, es, gm, lm) = minimise(self.w, entries, g, lays, &clause, l);
-                if !l.has_violation_key(&key) {
-                    let (_, mtext) = run_file(self.w, &es, &gm, &lm, &mut Local::default());
-                    let midx: Vec<usize> = es
-                        .iter()
-                        .map(|e| self.alpha.iter().position(|a| std::ptr::eq(a, *e)).unwrap())
-                        .collect();
-                    let mut j = case_json(self.alpha_name, &midx, &es, &gm, &lm, mtext.as_deref());
-                    j["found_in"] = case_json(self.alpha_name, idx, entries, g, lays, Some(&text));
+                let fam = family(&clause);
+                let holds = |p: &Pos| if p.slot == 0 { g[p.dim] == p.val } else { lays[p.slot - 1][p.dim] == p.val };
+                if let Some((_, _, key)) = run.cache.iter().find(|(f, set, _)| f == fam && set.iter().all(holds)) {
+                    l.violation(key, &what, || Value::Null);
+                    return;
+                }
+                st.minimised += 1;
+                let m = minimise(self.w, self.alpha, &run.entries, g, lays, &clause);
+                for s in &m.sets {
+                    run.cache.push((fam.to_string(), s.clone(), m.key.clone()));
+                }
+                if !l.has_violation_key(&m.key) {
+                    let (_, mtext) = run_file(self.w, &m.entries, &m.g, &m.lays, &mut Local::default());
+                    let midx: Vec<usize> = m.entries.iter().map(|e| self.alpha.iter().position(|a| std::ptr::eq(a, *e)).expect("alphabet entry")).collect();
+                    let mut j = case_json(self.alpha_name, &midx, &m.entries, &m.g, &m.lays, mtext.as_deref());
+                    j["found_in"] = case_json(self.alpha_name, run.idx, &run.entries, g, lays, Some(&text));
                     j["clause"] = json!(clause);
-                    l.violation(&key, &what, || j);
+                    l.violation(&m.key, &what, || j);
                 } else {
-                    l.violation(&key, &what, || Value::Null);
+                    l.violation(&m.key, &what, || Value::Null);
                 }
             }
         }
@@ -585,7 +657,7 @@ pub fn replay(w: &World, case: &Value, l: &mut Local) {
     eprintln!("replay text:\n{}", text.clone().unwrap_or_default());
     match v {
         Verdict::Viol { clause, what } => {
-            let key = if clause.starts_with("panic:") { clause.clone() } else { minimise(w, &entries, &g, &lays, &clause, l).0 };
+            let key = if clause.starts_with("panic:") { clause.clone() } else { minimise(w, &alpha, &entries, &g, &lays, &clause).key };
             l.violation(&key, &what, || case.clone());
         }
         other => eprintln!("replay verdict: {other:?}"),
